@@ -9,6 +9,7 @@
 #include <vector>
 
 #include <djinterop/djinterop.hpp>
+#include <djinterop/engine/v2/engine_library.hpp>
 
 #include "common/core.hpp"
 #include "common/seams.hpp"
@@ -63,6 +64,7 @@ public:
 
     eng::engine_schema schema;
     bool v2;
+    std::shared_ptr<eng::v2::engine_library> lib2;  // table API access (in-memory 2.x worlds only)
     dj::database db;
     sqlite3* handle = nullptr;
     std::string uuid;
